@@ -6,6 +6,7 @@ import (
 	"go/types"
 	"sort"
 	"strings"
+	"time"
 
 	"golang.org/x/tools/go/ssa"
 )
@@ -312,7 +313,13 @@ func verifyFunctionRenamed(l *Loaded, specs *Specs, ct *Contract, timeout, seed 
 		if r.Unsupported != "" {
 			return false
 		}
-		solveAll(w, r.Obls, timeout, seed)
+		// a binding that fits proves as fast as the unchanged function does (every obligation answers within a few
+		// seconds); a wrong one is given little time to fail
+		t := timeout
+		if t > 10 {
+			t = 10
+		}
+		solveAll(w, r.Obls, t, seed)
 		for _, o := range r.Obls {
 			if !o.ok() && !(o.Clause != nil && o.Clause.Withdrawn) && !o.KnownFailing {
 				return false
@@ -322,6 +329,9 @@ func verifyFunctionRenamed(l *Loaded, specs *Specs, ct *Contract, timeout, seed 
 	}
 	all := append([]map[string]string{cands[0], nil}, cands[1:]...)
 	tries := 0
+	started := time.Now()
+	noRetry = true
+	defer func() { noRetry = false }()
 	var firstRep *FuncReport
 	var firstAlias map[string]string
 	haveFirst := false
@@ -331,8 +341,8 @@ func verifyFunctionRenamed(l *Loaded, specs *Specs, ct *Contract, timeout, seed 
 			continue // ill-sorted under this binding
 		}
 		tries++
-		if tries > maxAliasTries {
-			break
+		if tries > maxAliasTries || (tries > 2 && time.Since(started) > 240*time.Second) {
+			break // budget of the search: twelve bindings or four minutes
 		}
 		if !haveFirst {
 			firstRep, firstAlias, haveFirst = r2, al, true
